@@ -81,13 +81,16 @@ static void act(Ctx *cx, void *it) {
     } else if (!strcmp(cx->act[0], "class")) { snprintf(b, sizeof b, "class=%u", (unsigned) t->rr_class(it)); put(&r, b);
     } else if (!strcmp(cx->act[0], "ttl")) { snprintf(b, sizeof b, "ttl=%lu", (unsigned long) t->rr_ttl(it)); put(&r, b);
     } else if (!strcmp(cx->act[0], "setttl")) { t->set_rr_ttl(it, (uint32_t) strtoull(cx->act[1], NULL, 10)); put(&r, "ok");
-    } else if (!strcmp(cx->act[0], "ip")) {
-        uint8_t g[16 + 2 * PAD];
-        size_t len = 16;
+    } else if (!strcmp(cx->act[0], "ip") || !strcmp(cx->act[0], "ipcap")) {
+        uint8_t g[256 + 2 * PAD];
+        size_t cap = !strcmp(cx->act[0], "ipcap") ? (size_t) strtoull(cx->act[1], NULL, 10) : 16;
+        size_t len = cap;
+        if (cap > 256) cap = len = 256;
         memset(g, CANARY, sizeof g);
         t->rr_ip(it, g + PAD, &len);
-        if (!intact(g, 16)) { put(&r, "CANARY-BROKEN"); return; }
-        put(&r, "ip="); put_hex(&r, g + PAD, len > 16 ? 16 : len);
+        if (!intact(g, cap)) { put(&r, "CANARY-BROKEN"); return; }
+        { size_t i; for (i = len; i < cap; i++) if (g[PAD + i] != CANARY) { put(&r, "WROTE-PAST-ADDRESS"); return; } }
+        put(&r, "ip="); put_hex(&r, g + PAD, len > cap ? cap : len);
         snprintf(b, sizeof b, "/%zu", len); put(&r, b);
     } else if (!strcmp(cx->act[0], "setip")) {
         uint8_t a[16]; size_t n = unhex(cx->act[1], a, sizeof a);
